@@ -198,7 +198,7 @@ class Data:
         c = dict(N=self.N, E=self.Es, extras=[list(e) for e in self.extras])
         c["cats"] = [[[list(sub), [ev(x) for x in cs]] for sub, cs in per.items()] for per in self.cats]
         from oracle.codec import enc
-        if self.form == "intpair":
+        if self.form in ("intpair", "dt", "dtpair"):
             for r in range(self.N):
                 for k in range(self.K):
                     if Fraction(ev(self.vt[r][k])).denominator != 1:
